@@ -22,7 +22,14 @@ import (
 	"time"
 )
 
-const Root = "/verif"
+// Root is /verif; $VERIF_ROOT moves it for isolated evaluations of seeded changes (tools/mutant_iso.py), which run a
+// copy of the framework against a scratch worktree of the repository so that /repo itself stays untouched.
+var Root = func() string {
+	if r := os.Getenv("VERIF_ROOT"); r != "" {
+		return r
+	}
+	return "/verif"
+}()
 
 type Violation struct {
 	// Sub-check id, e.g. "wire-order" or "handler-order".
